@@ -2,6 +2,7 @@
   Driver.LshD — line-protocol handlers for Model.Tlsh / Model.Nilsimsa (C19, Nilsimsa part of C14).
 
     tlsh <buckets> <window> <chklen> <force T/F> <data>          digest | none | ERR            (model, spec)
+    tlsh.rt <buckets> <window> <chklen> <force T/F> <data>       TLSH(cfg).from_hash(digest).digest().lsh_code | none | ERR
     tlsh.lcap <len>                                               l_capturing for data_len=len   (Float.log instance)
     tlsh.lcaprange <lo> <hi>                                      `len:value` at lo and at every change in [lo,hi)
     tlsh.fromhash <buckets> <window> <chklen> <digest>            re-serialised digest and fields | ERR
@@ -87,6 +88,17 @@ def handle : Handler := fun op args =>
   | "tlsh", [b, w, c, f, x] => do
       let cfg ← parseCfg? b w c; let f ← parseBool? f; let x ← parseBytes? x
       let m := fmtOptBytes (Tlsh.tlsh lcapF cfg x f)
+      let s := if cfg.valid then
+                 (match Spec.Tlsh.tlsh lcapF cfg.buckets cfg.window cfg.chklen x f with
+                  | some d => fmtBytes d | none => "none")
+               else "ERR"
+      pure (m, s)
+  | "tlsh.rt", [b, w, c, f, x] => do
+      let cfg ← parseCfg? b w c; let f ← parseBool? f; let x ← parseBytes? x
+      let m := fmtOptBytes (do
+        match ← Tlsh.tlsh lcapF cfg x f with
+        | none => pure none
+        | some d => let o ← Tlsh.fromHash cfg d; pure (some (Tlsh.digest o)))
       let s := if cfg.valid then
                  (match Spec.Tlsh.tlsh lcapF cfg.buckets cfg.window cfg.chklen x f with
                   | some d => fmtBytes d | none => "none")
